@@ -4,7 +4,7 @@
    (step index, tag, ok).  It is extracted to OCaml (volume) and also evaluated by vm_compute
    (cross-validation of the extraction).  No proofs in this file. *)
 From Coq Require Import ZArith List Bool Arith.
-From SpadeV Require Import Num.F64 Num.Decode Num.Decode2 Geom.Pred Gen.Prelude Num.ValidSpec Obs.State Obs.Spec Obs.Query Vmap.Model Cdt.SegSpec Check.Codes.
+From SpadeV Require Import Num.F64 Num.Decode Num.Decode2 Geom.Pred Gen.Prelude Num.ValidSpec Obs.State Obs.Spec Obs.Query Vmap.Model Cdt.SegSpec Refine.Outer Check.Codes.
 Import ListNotations.
 
 (* ------------------------------------------------------------------ parsing the state line *)
@@ -527,6 +527,65 @@ Definition check_segspec (c : cfg) (p n : obs) (op : Z) (args res : list Z) : li
     end
   else [].
 
+(* ------------------------------------------------------------------ C06: exact decisions of the predicate wrappers *)
+Definition sign_flags (o : Z) : list Z :=
+  [if (0 <? o)%Z then 1 else 0; if (o <? 0)%Z then 1 else 0; if (o =? 0)%Z then 1 else 0]%Z.
+Definition check_msq (args res : list Z) : list (tag * bool) :=
+  match decode_points args with
+  | Some [a; b; q] => [(T_sidequery, list_eqb Z.eqb (sign_flags (orient a b q)) res)]
+  | _ => [(T_parse, false)]
+  end.
+Definition check_mcic (args res : list Z) : list (tag * bool) :=
+  match decode_points args, res with
+  | Some [v1; v2; v3; q], [r] => [(T_sidequery, Z.eqb r (if (0 <? incircle v1 v2 v3 q)%Z then 1 else 0)%Z)]
+  | _, _ => [(T_parse, false)]
+  end.
+Definition check_sq (p : obs) (args res : list Z) : list (tag * bool) :=
+  match args with
+  | [e; x; y] =>
+      match with_points p [x; y] with
+      | Some (pts, [q], _) =>
+          let e' := Z.to_nat e in
+          [(T_sidequery, list_eqb Z.eqb (sign_flags (orient (eorg p pts e') (edst p pts e') q)) res)]
+      | _ => [(T_parse, false)]
+      end
+  | _ => [(T_parse, false)]
+  end.
+
+(* ------------------------------------------------------------------ C20 refine, C13 add_constraint_and_split *)
+Definition prefix_unchanged (p n : obs) : bool :=
+  (nV p <=? nV n) &&
+  list_eqb (fun a b => (v_x a =? v_x b)%Z && (v_y a =? v_y b)%Z && (v_data a =? v_data b)%Z) (o_verts p) (firstn (nV p) (o_verts n)).
+
+(* refine <ratio|-> <min-area|-> <max-area|-> <max-verts|-> <keep 0/1> <excl 0/1> ;  res = complete n_excl f* *)
+Definition check_refine (p n : obs) (args res : list Z) : list (tag * bool) :=
+  match args, res, obs_points n with
+  | [_; _; _; maxv; keep; excl], complete :: ne :: ex, Some npts =>
+      let budget_ok := if (maxv =? K_dash)%Z then true else (nV n <=? nV p + Z.to_nat maxv) in
+      let got := map Z.to_nat ex in
+      [(T_refine, prefix_unchanged p n && budget_ok && (length ex =? Z.to_nat ne)
+                  && (if (keep =? 1)%Z then constraints_kept p n else constraints_covered p n npts)
+                  && (if (excl =? 1)%Z then excluded_ok n got else match got with [] => true | _ => false end))]
+  | _, _, _ => [(T_parse, false)]
+  end.
+
+(* add_constraint_and_split a b: a chain of constraint edges from a to b (through new vertices or vertices on the segment), every
+   old constraint still covered, existing vertices untouched, one new vertex per ... *)
+Definition check_split (p n : obs) (a b : Z) (res : list Z) : list (tag * bool) :=
+  match obs_points n, counted res with
+  | Some npts, Some chain =>
+      let va := Z.to_nat a in let vb := Z.to_nat b in
+      let chain_conn :=
+        (fix go (cur : nat) (l : list nat) : bool :=
+           match l with
+           | [] => cur =? vb
+           | e :: t => (e <? nH n) && (org n e =? cur) && flag n e && go (dest n e) t
+           end) va chain in
+      [(T_split, prefix_unchanged p n && constraints_covered p n npts
+                 && (if va =? vb then true else match chain with [] => false | _ => chain_conn end))]
+  | _, _ => [(T_parse, false)]
+  end.
+
 Definition check_op (c : cfg) (p : obs) (op : Z) (args res : list Z) (n : obs) (aux : option (list Z)) : list (tag * bool) :=
   if existsb (Z.eqb K_skip) res || existsb (Z.eqb K_panic) res || existsb (Z.eqb K_hang) res then [] else
   if (op =? OP_ins)%Z then
@@ -561,6 +620,11 @@ Definition check_op (c : cfg) (p : obs) (op : Z) (args res : list Z) (n : obs) (
   else if (op =? OP_vcirc)%Z then check_circ p false args res
   else if (op =? OP_ecirc)%Z then check_circ p true args res
   else if (op =? OP_hull)%Z then check_hull p res
+  else if (op =? OP_refine)%Z then check_refine p n args res
+  else if (op =? OP_split)%Z then match args with [a; b] => check_split p n a b res | _ => [(T_parse, false)] end
+  else if (op =? OP_msq)%Z then check_msq args res
+  else if (op =? OP_mcic)%Z then check_mcic args res
+  else if (op =? OP_sq)%Z then check_sq p args res
   else if (op =? OP_canc)%Z then match args with [a; b] => check_canc p a b res | _ => [(T_parse, false)] end
   else if (op =? OP_confv)%Z then match args with [a; b] => check_confv p a b res | _ => [(T_parse, false)] end
   else if (op =? OP_isc)%Z then check_isc p args res false
